@@ -4,10 +4,11 @@ import json, os
 HERE = os.path.dirname(os.path.dirname(os.path.abspath(__file__)))
 
 CLAIMED = {
-    'C05': dict(tech='exhaustive finite-table extraction from MIR decision trees + structural rules on the encoders',
+    'C05': dict(tech='exhaustive finite-table extraction from MIR decision trees + lane-dependence abstract interpretation of the SIMD encoders + must-pass-through / tail hand-off rules',
                 text='Static: the alphabet tables (from_ascii over all 256 bytes, as_ascii, as_index, symbols(), as_str(), default symbol) are '
-                     'extracted from the MIR of /repo and compared exhaustively; structural rules on the SIMD/generic encoders. '
-                     'Right level because acceptance is a finite table and the rest is code shape.',
+                     'extracted from the MIR of /repo and compared exhaustively; for the AVX2 and SSE2 encoders every byte lane is shown to hold a iff the input byte equals as_str()[a] '
+                     '(index and letter in lock-step over 0..K), unknown/error flags accumulate, the error test dominates Ok with a rescan from the start, the generic tail gets seq[i..]/dst[i..] '
+                     'with the same i and its result is propagated; the generic encoder and the dispatcher arms are matched. Acceptance is a finite table and the rest is code shape.',
                 ref='DESIGN.md §4 C05'),
     'C10': dict(tech='exhaustive complement table + relational summary / sibling cross-check of the four reverse_complement bodies',
                 text='Static: complement table proven an involution with the documented pairs; each reverse_complement body is summarised '
